@@ -120,3 +120,34 @@ Proof.
   intros tris HP cpt kq B. rewrite mesh_tri_boxes_tris in B. fold tris in B.
   exact (closest_eq_brute_triangles_thm tris q depth t HP B).
 Qed.
+
+(* ---------- the two element kinds whose closest point needs no geometry ---------- *)
+(* trees.BoundingBoxElement: ClosestPoint = AABB.ClosestPoint, so the element's distance IS its box distance *)
+Theorem closest_eq_brute_boxes_thm (boxes : list box) q depth t :
+  Forall wf_box boxes ->
+  let ekey := fun i => boxdist2 (nth i boxes zero_pt_box) q in
+  let cpt := fun i => bclosest (nth i boxes zero_pt_box) q in
+  new_octree depth boxes = Some t ->
+  (exists r, closest pt ekey cpt 1 q t = Some r) /\
+  forall i k p, closest pt ekey cpt 1 q t = Some (i, k, p) ->
+    (i < length boxes)%nat /\ k = ekey i /\ p = cpt i /\ forall j, (j < length boxes)%nat -> k <= ekey j.
+Proof.
+  intros W ekey cpt B. apply (closest_eq_brute_thm pt ekey cpt 1 q depth boxes t); try assumption; [lia|].
+  intros i Hi. unfold ekey. lia.
+Qed.
+
+(* scopedPoint (point clouds): ClosestPoint = the point itself *)
+Theorem closest_eq_brute_points_thm (pts : list pt) q depth t :
+  let ekey := fun i => dist2 (vat pts i) q in
+  let cpt := fun i => vat pts i in
+  new_octree depth (mesh_point_boxes pts) = Some t ->
+  (exists r, closest pt ekey cpt 1 q t = Some r) /\
+  forall i k p, closest pt ekey cpt 1 q t = Some (i, k, p) ->
+    (i < length pts)%nat /\ k = ekey i /\ p = cpt i /\ forall j, (j < length pts)%nat -> k <= ekey j.
+Proof.
+  intros ekey cpt B. destruct (mesh_point_boxes_spec pts) as [L N].
+  rewrite <- L. apply (closest_eq_brute_thm pt ekey cpt 1 q depth (mesh_point_boxes pts) t); try assumption; [lia| |].
+  - apply (mesh_boxes_wf 0 pts []).
+  - intros i Hi. rewrite L in Hi. rewrite (N i Hi). unfold ekey. rewrite Z.mul_1_r.
+    apply boxdist2_le_in, point_closest_in_bbox.
+Qed.
